@@ -9,8 +9,10 @@ package main
 
 import (
 	"fmt"
+	"go/constant"
 	"go/token"
 	"go/types"
+	"os"
 	"sort"
 	"strings"
 
@@ -1158,8 +1160,200 @@ func (x *c01Ctx) pushbackG(d *c01Dir) {
 	case !lo.ok():
 		r.Violation(c01R7, cons, pos, "the surplus pushed back starts at the beginning of the buffer: the header itself is fed to the segment reader")
 	default:
-		r.Check(g.res(lo) != g.res(hi), c01R7, cons, pos, "the stream becomes MultiReader(copy of buf[afterHeader:n], rest)", "the surplus window starts at the accumulated read count, i.e. is always empty")
+		if r.Check(g.res(lo) != g.res(hi), c01R7, cons, pos, "the stream becomes MultiReader(copy of buf[afterHeader:n], rest)", "the surplus window starts at the accumulated read count, i.e. is always empty") {
+			x.pushbackOnAllPaths(d, hdr, mr, lo, hi)
+		}
 	}
+}
+
+// pushbackOnAllPaths (R7): every way from a header Read to the segment phase either performs the push-back or
+// has established that nothing was read past the header (count <= end of header). A path that skips both —
+// e.g. an early return when the last Read carried io.EOF — drops payload bytes delivered with the header.
+func (x *c01Ctx) pushbackOnAllPaths(d *c01Dir, hdr []cgRead, mr, lo, hi CV) {
+	r, g := x.r, d.g
+	cons := "push-back on every path to the segment phase"
+	mrNode := g.nodeOf(mr.C, mr.V.(*ssa.Call))
+	loL, hiL := g.lin(lo), g.lin(hi)
+	// does the edge (cond taken with branch) prove "no surplus": hi <= lo ?
+	noSurplus := func(c cgCond) (proves, about bool) {
+		cmp, ok := g.decode(c.Cond, c.Branch)
+		if !ok {
+			return false, false
+		}
+		a, b, op := g.lin(cmp.X), g.lin(cmp.Y), cmp.Op
+		// hi ? lo
+		if a == loL && b == hiL {
+			a, b, op = b, a, c01FlipOp(op)
+		}
+		if a == hiL && b == loL {
+			return op == token.LEQ || op == token.EQL || op == token.LSS, true
+		}
+		// (hi - lo) ? 0   /  len(window) ? 0
+		isDiff := func(v CV) bool {
+			v = g.deep(v)
+			if bo, ok := v.V.(*ssa.BinOp); ok && bo.Op == token.SUB {
+				return g.lin(CV{v.C, bo.X}) == hiL && g.lin(CV{v.C, bo.Y}) == loL
+			}
+			if c, ok := v.V.(*ssa.Call); ok && builtinName(c) == "len" && len(c.Call.Args) == 1 {
+				w := g.deep(CV{v.C, c.Call.Args[0]})
+				if sl, ok := w.V.(*ssa.Slice); ok && sl.Low != nil && sl.High != nil {
+					return g.lin(CV{w.C, sl.Low}) == loL && g.lin(CV{w.C, sl.High}) == hiL
+				}
+			}
+			return false
+		}
+		x0, y0 := cmp.X, cmp.Y
+		if k, ok := g.constInt(x0); ok && k == 0 && isDiff(y0) {
+			x0, y0, op = y0, x0, c01FlipOp(op)
+		}
+		if k, ok := g.constInt(y0); ok && isDiff(x0) {
+			switch {
+			case k == 0:
+				return op == token.LEQ || op == token.EQL, true
+			case k == 1:
+				return op == token.LSS, true
+			}
+			return false, true
+		}
+		return false, false
+	}
+	// a test AROUND the push-back (its other branch reaches the segment phase without pushing back) must be one
+	// we understand — a comparison or an error test; an opaque flag (hasExtra, a helper's boolean …) may well
+	// encode "nothing was read past the header", so nothing can be concluded then
+	target := d.fill.n
+	for _, dc := range g.domConds(mrNode) {
+		other := dc.At.succs[0]
+		if dc.To == other && len(dc.At.succs) == 2 {
+			other = dc.At.succs[1]
+		}
+		around := g.reach(other, map[*cgNode]bool{mrNode: true})[target]
+		if !around {
+			continue
+		}
+		afterHdr := false
+		for _, h := range hdr {
+			if g.reach(h.n, nil)[dc.At] {
+				afterHdr = true
+			}
+		}
+		if !afterHdr {
+			continue
+		}
+		if _, about := noSurplus(dc); about {
+			continue
+		}
+		c0, _ := g.stripNot(dc.Cond, true)
+		if _, isCmp := g.decode(c0, true); isCmp {
+			continue
+		}
+		if call, ok := c0.V.(*ssa.Call); ok && (callIs(call, "errors", "", "Is") || callIs(call, "errors", "", "As")) {
+			continue
+		}
+		r.Undecide("C01.R7: the push-back of the bytes read past the header is guarded by a condition the analysis cannot interpret (%s); whether every path pushes back or has nothing to push back is not decided", g.desc(c0))
+		return
+	}
+	var witness *cgNode
+	for _, h := range hdr {
+		seen := map[string]bool{}
+		var walk func(n, pred *cgNode, taken *cgTaken) bool
+		walk = func(n, pred *cgNode, taken *cgTaken) bool {
+			if n == nil {
+				return false
+			}
+			// remember through which return each expanded call was left (the last few): error tests on values that
+			// travelled through variables / outer helpers are then decided by the return actually taken
+			if pred != nil && pred.C != n.C {
+				if _, isRet := pred.last().(*ssa.Return); isRet {
+					taken = &cgTaken{join: n, pred: pred, up: taken}
+				}
+			}
+			k := fmt.Sprintf("%d|%d|%s", n.idx, predIdx(pred), taken.sig(4))
+			if seen[k] {
+				return false
+			}
+			seen[k] = true
+			if n == mrNode {
+				return false // push-back performed
+			}
+			if n == target {
+				return true
+			}
+			succs := n.succs
+			if len(n.succs) == 2 {
+				if c, ok := g.edgeCond(n, n.succs[0]); ok {
+					if val, decided := g.decideAlong(c.Cond, n, taken); decided {
+						if val {
+							succs = n.succs[:1]
+						} else {
+							succs = n.succs[1:]
+						}
+					}
+				}
+			}
+			for _, sn := range succs {
+				if c, ok := g.edgeCond(n, sn); ok && len(n.succs) == 2 {
+					if proves, _ := noSurplus(c); proves {
+						continue // nothing to push back on this branch
+					}
+				}
+				if walk(sn, n, taken) {
+					if witness == nil {
+						witness = sn
+					}
+					if os.Getenv("C01_PATH") != "" {
+						fmt.Printf("PATH N%d %s b%d -> N%d %s b%d (%s)\n", n.idx, n.C.fn.Name(), n.B.Index, sn.idx, sn.C.fn.Name(), sn.B.Index, x.p.Pos(instrPos(sn.B.Instrs[0])))
+					}
+					return true
+				}
+			}
+			return false
+		}
+		if walk(h.n, nil, nil) {
+			pos := "-"
+			if witness != nil && witness.last() != nil {
+				pos = x.p.Pos(instrPos(witness.last()))
+			}
+			r.Violation(c01R7, cons, pos, "there is a way from the header Read to the segment phase that neither puts the bytes read past the header back in front of the stream nor has checked that there are none (count <= end of header): payload bytes that arrived in the same Read as the end of the header — e.g. a short document delivered whole together with io.EOF — are dropped and Decrypt returns a truncated (possibly empty) plaintext without error")
+			return
+		}
+	}
+	r.OK(c01R7, cons, g.pos(mr), "every path from the header Read to the segment phase pushes the surplus back or has seen that there is none")
+}
+
+// decideByPred: the truth of cond on arrival at node n from pred, when cond tests a value formed at n's entry
+// (result of the helper just returned from / phi) whose incoming value over pred is decisive.
+func (g *cGraph) decideByPred(cond CV, n, pred *cgNode) (val, decided bool) {
+	cv, br := g.stripNot(cond, true)
+	if g.joinOf(cv) == n {
+		if sib, ok := g.sibling(cv, cgEdge{Pred: pred}); ok {
+			if k, isK := g.res(sib).V.(*ssa.Const); isK && k.Value != nil && k.Value.Kind() == constant.Bool {
+				return constant.BoolVal(k.Value) == br, true
+			}
+		}
+		return false, false
+	}
+	cmp, ok := g.decode(cv, br)
+	if !ok || (cmp.Op != token.EQL && cmp.Op != token.NEQ) {
+		return false, false
+	}
+	xv, yv := g.res(cmp.X), g.res(cmp.Y)
+	if isNilConst(xv.V) {
+		xv, yv = yv, xv
+	}
+	if !isNilConst(yv.V) || g.joinOf(xv) != n {
+		return false, false
+	}
+	sib, ok := g.sibling(xv, cgEdge{Pred: pred})
+	if !ok {
+		return false, false
+	}
+	if g.nonNil(sib, pred) {
+		return cmp.Op == token.NEQ, true
+	}
+	if g.knownNil(sib, pred) {
+		return cmp.Op == token.EQL, true
+	}
+	return false, false
 }
 
 // ---------------------------------------------------------------- header writer / reader agreement
@@ -1580,4 +1774,93 @@ func (g *cGraph) hasHigh(v CV) bool {
 	}
 	sl, ok := v.V.(*ssa.Slice)
 	return ok && sl.High != nil
+}
+
+// cgTaken records, along a path, through which return node each expanded call was left.
+type cgTaken struct {
+	join, pred *cgNode
+	up         *cgTaken
+}
+
+func (t *cgTaken) sig(n int) string {
+	out := ""
+	for x := t; x != nil && n > 0; x, n = x.up, n-1 {
+		out += fmt.Sprintf("%d,", x.pred.idx)
+	}
+	return out
+}
+
+func (t *cgTaken) predOf(j *cgNode) *cgNode {
+	for x := t; x != nil; x = x.up {
+		if x.join == j {
+			return x.pred
+		}
+	}
+	return nil
+}
+
+func predIdx(n *cgNode) int {
+	if n == nil {
+		return -1
+	}
+	return n.idx
+}
+
+// valueAlong resolves v following, at the continuation of each expanded call, the return actually taken on
+// the path (and single-valued variables in between).
+func (g *cGraph) valueAlong(v CV, taken *cgTaken, depth int) (CV, *cgNode) {
+	var at *cgNode
+	for i := 0; i < 16; i++ {
+		v = g.deep(v)
+		j := g.joinOf(v)
+		if j == nil {
+			return v, at
+		}
+		p := taken.predOf(j)
+		if p == nil {
+			return v, at
+		}
+		sib, ok := g.sibling(v, cgEdge{Pred: p})
+		if !ok {
+			return v, at
+		}
+		v, at = sib, p
+	}
+	return v, at
+}
+
+// decideAlong: the truth of an `e ==/!= nil` / boolean-result test at node n given the returns taken so far.
+func (g *cGraph) decideAlong(cond CV, n *cgNode, taken *cgTaken) (val, decided bool) {
+	cv, br := g.stripNot(cond, true)
+	if b, ok := cv.V.Type().Underlying().(*types.Basic); ok && b.Kind() == types.Bool {
+		if _, isBin := cv.V.(*ssa.BinOp); !isBin {
+			w, _ := g.valueAlong(cv, taken, 0)
+			if k, isK := w.V.(*ssa.Const); isK && k.Value != nil && k.Value.Kind() == constant.Bool {
+				return constant.BoolVal(k.Value) == br, true
+			}
+			return false, false
+		}
+	}
+	cmp, ok := g.decode(cv, br)
+	if !ok || (cmp.Op != token.EQL && cmp.Op != token.NEQ) {
+		return false, false
+	}
+	xv, yv := cmp.X, cmp.Y
+	if g.isNil(xv) {
+		xv, yv = yv, xv
+	}
+	if !g.isNil(yv) {
+		return false, false
+	}
+	w, at := g.valueAlong(xv, taken, 0)
+	if at == nil {
+		at = n
+	}
+	if g.nonNil(w, at) {
+		return cmp.Op == token.NEQ, true
+	}
+	if g.knownNil(w, at) {
+		return cmp.Op == token.EQL, true
+	}
+	return false, false
 }
